@@ -1215,14 +1215,14 @@ Proof.
     apply join_ends_Good; auto.
     intros i o Hio. apply in_combine_l in Hio. apply (stat_okP w w2); [eapply stat_trans; [exact St1 | exact St2]|].
     eapply filter_real_ok; eauto.
-  - (* OUnitInsert *) unfold unit_insert. destruct (resolve w a) as [s| |] eqn:Ra; try now apply Good_same.
+  - (* OUnitInsert *) unfold unit_insert.
+    assert (Ra0 : rarg_okP w (resolve w a)) by (apply resolve_ok; assumption).
+    destruct (resolve w a) as [s| |] eqn:Ra; try now apply Good_same.
     apply andb_true_iff in Pre. destruct Pre as [Pre Q5].
-    apply andb_true_iff in Pre. destruct Pre as [Pre Q4].
     apply andb_true_iff in Pre. destruct Pre as [Pre Q3].
     apply andb_true_iff in Pre. destruct Pre as [Q1 Q2].
     rewrite Q1, Q2. cbn [negb].
     destruct (ptr w SIn s) as [v|] eqn:Pi; [|discriminate].
-    destruct (ptr w SOut s) as [t|] eqn:Po; [|discriminate].
     destruct (hd_arg (ports w SOut u)) as [y|] eqn:Hy; [|discriminate].
     apply andb_true_iff in Q5. destruct Q5 as [P1 P2].
     assert (Oy : obj_okP w y).
@@ -1232,14 +1232,17 @@ Proof.
     + apply (good_Good SIn); auto. apply replace_good; auto; [apply (InvS_side SIn w HI)|].
       destruct (InvS_side SIn w HI) as [IS _]. eapply I_uptr; eauto.
     + intros w1 E1 I1 St1. rewrite E1 in P2.
-      pose proof (St_pfixed _ _ St1 SIn u) as S5. pose proof (St_psize _ _ St1 SIn u) as S4.
-      pose proof (St_nunits _ _ St1) as S1.
-      rewrite S5, S4, Q3, Q4. cbn [orb].
-      destruct (hd_arg (ports w1 SIn u)) as [z|] eqn:Hz; [|now apply Good_same].
-      apply (good_Good SOut); auto. apply replace_good; auto; [apply (InvS_side SOut w1 I1) | |].
-      * destruct (InvS_side SOut w HI) as [IS _]. rewrite S1. eapply I_uptr; eauto.
-      * destruct (InvS_side SIn w1 I1) as [IS _]. apply (I_ok _ _ IS u).
-        destruct (ports w1 SIn u) as [|z' t'] eqn:E; [discriminate|]. simpl in Hz. inversion Hz. now left.
+      pose proof (St_psize _ _ St1 SIn u) as S4. pose proof (St_nunits _ _ St1) as S1.
+      destruct (pfixed w1 SIn u) eqn:Fx1; cbn [orb].
+      * rewrite <- (St_pfixed _ _ St1 SIn u), Fx1 in Q3. cbn [negb orb] in Q3. rewrite S4, Q3.
+        destruct (ptr w SOut s) as [t|] eqn:Po; [|discriminate].
+        destruct (hd_arg (ports w1 SIn u)) as [z|] eqn:Hz; [|now apply Good_same].
+        apply (good_Good SOut); auto. apply replace_good; auto; [apply (InvS_side SOut w1 I1) | |].
+        -- destruct (InvS_side SOut w HI) as [IS _]. rewrite S1. eapply I_uptr; eauto.
+        -- destruct (InvS_side SIn w1 I1) as [IS _]. apply (I_ok _ _ IS u).
+           destruct (ports w1 SIn u) as [|z' t'] eqn:E; [discriminate|]. simpl in Hz. inversion Hz. now left.
+      * apply (good_Good SIn); auto. apply insert_stream_good; auto; [apply (InvS_side SIn w1 I1) | lia |].
+        eapply (rarg_ok_stat w w1 (RObj s)); eauto.
   - (* OTakePlaceOf *) now apply take_place_Good.
   - (* OReplaceWith (Some v) *) destruct v as [v|]; [|discriminate]. cbn [replace_with].
     apply take_place_Good; auto. apply unit_ok_lt; assumption.
